@@ -144,6 +144,9 @@ func ToDatumEmptyNonNull(s *ref.Schema, v reflect.Value, omit bool) (ref.Datum, 
 
 func toDatum(s *ref.Schema, v reflect.Value, omit bool, emptyIsNull bool) (ref.Datum, error) {
 	t := v.Type()
+	if s.Type == "null" {
+		return ref.DNull(), nil
+	}
 	if ni, oi, ok := nullBranch(s); ok {
 		other := s.Branches[oi]
 		isNull := false
